@@ -11,7 +11,7 @@
 """
 import json, os, random
 from vlib import sut, tlc, tracecheck, runner
-from checks import decmatrix
+from checks import decmatrix, c02_history
 
 SPEC = os.path.join(sut.VERIF, "specs", "viterbi")
 KEEP = {"Net", "Frame", "Result"}
@@ -30,7 +30,30 @@ SHAPES = [
     "public <s> = hello | what | you | to you;",
     "public <s> = (one | two | three | four | five | six | seven | eight | nine | ten)+ ;",
     "public <s> = ten <t> | [ [ ( backward )* ] ]; <t> = [ meters ];",      # accepts the empty sentence: a result without words
+    # a state left towards words whose first phones span the whole phone inventory (the exit of the word before is
+    # recorded per right context, and the entries of one exit compete with each other)
+    "public <s> = go (what | you | three | a | and | eight | office | window | one | are | exit) ten meters;",
+    "public <s> = (go | ten | forward | left) (thirty | wander | you | around | office | understand | eleven | say);",
+    "public <s> = (forward | go) (W0 | W1 | W2 | W3 | W4 | W5 | W6 | W7) (ten | W8 | W9);",
+    "public <s> = (W0 | W1 | go) (W2 | W3 | W4 | meters) [W5 | W6];",
 ]
+PHONES = ["AA", "AE", "AH", "AO", "AW", "AY", "B", "CH", "D", "DH", "EH", "ER", "EY", "F", "G", "HH", "IH", "IY", "JH", "K", "L", "M", "N",
+          "NG", "OW", "OY", "P", "R", "S", "SH", "T", "TH", "UH", "UW", "V", "W", "Y", "Z", "ZH"]
+
+
+def runtime_words(rng, g):
+    """words W0..W9 of a shape are added at run time (decoder_add_word), with pronunciations that no dictionary word
+    prepared the context tables for: first phones spread over the inventory, 1-6 phones"""
+    lines, k = [], 0
+    firsts = rng.sample(PHONES, 10)
+    while "W%d" % k in g:
+        n = rng.choice([1, 2, 3, 4, 4, 5, 6])
+        pron = [firsts[k]] + [rng.choice(PHONES) for _ in range(n - 1)]
+        w = "zzw%d" % k
+        g = g.replace("W%d" % k, w)
+        lines.append("addword %s %s 0" % (w.encode().hex(), " ".join(pron).encode().hex()))
+        k += 1
+    return lines, g
 AUDIOS = ["head", "mid", "t5", "t4", "cut", "tail"]
 
 
@@ -40,9 +63,10 @@ def make_case(rng, idx, beams, big):
     cfg.update({"open": {"beam": 0, "pbeam": 0, "wbeam": 0}, "default": {},
                 "narrow": {"beam": 1e-20, "wbeam": 1e-10, "pbeam": 1e-20}}[beams])
     r = rng.random()
-    if r < 0.6:
-        g = SHAPES[idx % len(SHAPES)] if rng.random() < 0.8 else rng.choice(SHAPES)
-        gl, gk = ["jsgf " + decmatrix.hx("#JSGF V1.0;\ngrammar g;\n" + g + "\n")], "shape%d" % SHAPES.index(g)
+    if r < 0.6 or (beams == "open" and idx < len(SHAPES)):       # every shape at least once with open beams
+        g = SHAPES[idx % len(SHAPES)] if (rng.random() < 0.8 or idx < len(SHAPES)) else rng.choice(SHAPES)
+        add, g2 = runtime_words(rng, g)
+        gl, gk = add + ["jsgf " + decmatrix.hx("#JSGF V1.0;\ngrammar g;\n" + g2 + "\n")], "shape%d" % SHAPES.index(g)
     elif r < 0.8:
         gl, gk = ["jsgf " + decmatrix.hx("#JSGF V1.0;\ngrammar g;\n" + decmatrix.rand_jsgf(rng) + "\n")], "jsgf-rand"
     else:
@@ -79,12 +103,16 @@ def run(ctx):
     quick = ctx.tier == "quick"
     rng = random.Random(ctx.seed * 86028121 + 2)
     drv = decmatrix.build_driver()
+    if ctx.replay and open(ctx.replay).readline().startswith("#history"):
+        c02_history.replay(ctx, ctx.replay)
+        return
     if ctx.replay:
         cases = [("replay", [l for l in open(ctx.replay).read().split("\n") if l])]
     else:
+        rep.notes["history_executions"] = c02_history.run_stage(ctx)
         model_check(ctx, quick)
         cases = []
-        n_open, n_pruned = (10, 6) if quick else (90, 40)
+        n_open, n_pruned = (24, 6) if quick else (140, 40)
         for i in range(n_open):
             cases.append(make_case(rng, i, "open", big=(not quick and i % 30 == 29)))
         for i in range(n_pruned):
